@@ -1,4 +1,5 @@
 import Glas.Props.C17
+import Glas.Props.C17Imports
 #print axioms Glas.Props.C17.moduleName_spec
 #print axioms Glas.Props.C17.moduleName_other_ext
 #print axioms Glas.Props.C17.assignRoot_innermost
@@ -6,3 +7,8 @@ import Glas.Props.C17
 #print axioms Glas.Props.C17.isLocal_iff
 #print axioms Glas.Props.C17.free_standing_none
 #print axioms Glas.Props.C17.projectParent_has_toml
+#print axioms Glas.Props.C17Imports.resolve_sound
+#print axioms Glas.Props.C17Imports.resolve_complete
+#print axioms Glas.Props.C17Imports.transitive_invisible
+#print axioms Glas.Props.C17Imports.own_wins
+#print axioms Glas.Props.C17Imports.unique_candidate
